@@ -164,10 +164,10 @@ def loop_bound(f, lp):
         B = const_val(inc['y'])
     else:
         return None
-    if c.get('k') != 'bin' or c.get('op') != '<':
+    if c.get('k') != 'bin' or c.get('op') not in ('<', '<='):
         return None
     lhs, rhs = strip(c['x']), c['y']
-    k = 0
+    k = 0 if c['op'] == '<' else -1          # i + k <= N  ==  i + (k - 1) < N
     if lhs.get('k') == 'bin' and lhs.get('op') == '+' and const_val(lhs['y']) is not None:
         k = const_val(lhs['y'])
         lhs = strip(lhs['x'])
